@@ -9,9 +9,10 @@ echo "== patch: $(grep -c '^[+-][^+-]' /tmp/seed/$NAME.patch) changed lines in $
 T=$(PYTHONPATH=$WT /venv/bin/python -m pytest -q -p no:cacheprovider 2>&1 | tail -1)
 echo "== tests with change: $T"
 PYTHONPATH=$WT /venv/bin/python seed_demo.py > /tmp/seed/$NAME.demo_changed.txt 2>&1; echo "== demo with change: exit $? ($(tail -1 /tmp/seed/$NAME.demo_changed.txt | cut -c1-150))"
-git stash -q -- pymeeus
+# (no `git stash`: the stash is shared by all worktrees of a repository, so parallel evaluations would swap patches)
+git apply -R /tmp/seed/$NAME.patch
 PYTHONPATH=$WT /venv/bin/python seed_demo.py > /tmp/seed/$NAME.demo_orig.txt 2>&1; echo "== demo on original: exit $?"
-git stash pop -q
+git apply /tmp/seed/$NAME.patch
 cd /verif
 for i in 01 02 03 04 05 06 07 08 09 10 11 12 13 14 15 16 17 18 19 20; do
   out=$(PMV_EVIDENCE_DIR=/tmp/seed/evidence PMV_REPO=$WT ./check C$i 2>&1); rc=$?
